@@ -522,7 +522,7 @@ func r205(c *Ctx) {
 					// key is the service's map key; only guard is active != nil
 					extra := 0
 					for _, ce := range dominatingCondsOtherThanLoop(mu) {
-						cm, ok := asCmp(ce.cond, ce.taken)
+						cm, ok := ce.asCmp()
 						if ok && isNilConst(cm.y) {
 							if f, _, ok := fieldLoad(cm.x); ok && f.Name() == "active" {
 								continue
